@@ -527,6 +527,13 @@ func (a *Allocator) pinnedPoolsForService(svc *v1.Service) []*config.Pool {
 }
 
 func (a *Allocator) isPoolCompatibleWithService(p *config.Pool, svc *v1.Service) bool {
+	if p.ServiceAllocations != nil && p.ServiceAllocations.Namespaces.Len() == 0 &&
+		len(p.ServiceAllocations.ServiceSelectors) == 0 {
+		// The pool is restricted by namespace selectors only, and they match no
+		// namespace: it admits no service (a pool without any restriction gets
+		// the match-everything service selector when the config is parsed).
+		return false
+	}
 	if p.ServiceAllocations != nil && p.ServiceAllocations.Namespaces.Len() > 0 &&
 		!p.ServiceAllocations.Namespaces.Has(svc.Namespace) {
 		return false
